@@ -10,7 +10,7 @@ from sa.core import Ctx
 from sa.sm import call_kw, dotted, find_calls, norm
 
 from . import common
-from .c05 import check_counter, check_first_def
+from .c05 import check_counter, check_first_def, check_single_exit
 
 
 def run(ctx: Ctx):
@@ -34,6 +34,7 @@ def run(ctx: Ctx):
     )
     check_first_def(ctx, "R07.a", m)
     check_counter(ctx, "R07.a", m)
+    check_single_exit(ctx, "R07.a", m)
     # the stiff set
     stiff_sets = set()
     for r in m.rows:
@@ -122,6 +123,21 @@ def run(ctx: Ctx):
     ctx.check("stiff_states" in f.params, "R07.b", f.key("param"), "hybrid builder has a stiff_states parameter", "hybrid_rush_larsen has no stiff_states parameter", f.where())
     others = [mm.func.name for nm, mm in models.items() if nm != name and "stiff_states" in mm.func.params]
     ctx.check(not others, "R07.b", f.key("only-hybrid"), "no other builder takes stiff_states", f"other builders take stiff_states: {others}", f.where())
+    from .c18 import check_call_forwarding, commands, resolve_dispatch
+    from sa.sm import walk_no_nested
+
+    for cmd in commands(ctx):
+        for c in walk_no_nested(cmd.node):
+            if isinstance(c, ast.Call):
+                mm = resolve_dispatch(ctx, cmd, c)
+                if mm is not None and mm.name == "main" and "stiff_states" in mm.params:
+                    check_call_forwarding(ctx, "R07.b", cmd, c, mm, skip=set(mm.params) - {"stiff_states", "delta", "scheme"})
+    for short in ("cli/gotran2py.py", "cli/gotran2c.py"):
+        mainf = sm.func(short, "main")
+        gcf = sm.func(short, "get_code")
+        gcc = [c for c in find_calls(mainf.node, "get_code")]
+        if gcc:
+            check_call_forwarding(ctx, "R07.b", mainf, gcc[0], gcf, skip=set(gcf.params) - {"stiff_states", "delta", "scheme"})
     for short in ("cli/gotran2py.py", "cli/gotran2c.py"):
         g = sm.func(short, "get_code")
         calls = [c for c in find_calls(g.node, "add_schemes")]
